@@ -38,8 +38,8 @@ func writeEvidence(p PropCfg, tier string, seed int64, a *agg, wall, buildS floa
 	}
 	sort.Strings(cells)
 	cellSample := cells
-	if len(cellSample) > 40 {
-		cellSample = cellSample[:40]
+	if len(cellSample) > 400 {
+		cellSample = cellSample[:400]
 	}
 	samples := append([]any{}, a.samples...)
 	samples = append(samples, violSamples...)
